@@ -382,8 +382,8 @@ class Teraxion_TFN(QMI_Instrument):
     def close(self) -> None:
         _logger.info("[%s] Closing connection to instrument", self._name)
         self._check_is_open()
-        self._transport.close()
         super().close()
+        self._transport.close()
 
     @rpc_method
     def get_firmware_version(self) -> str:
